@@ -281,15 +281,15 @@ Qed.
 Definition ex_pass : list zgate :=
   [G "RZ" [1%Z] None (PNum 3%Z) false; G "H" [0%Z] None PNone false; G "CNOT" [2%Z] (Some [0%Z]) PNone false;
    G "RZ" [1%Z] None (PNum 5%Z) true; G "RX" [3%Z] None (PNum 3%Z) false; G "RX" [3%Z] None (PNum 13%Z) false;
-   G "H" [4%Z] None PNone false; G "H" [4%Z] None PNone false].
+   G "H" [2%Z] None PNone false; G "H" [2%Z] None PNone false].
 Example C09_passes_nonvacuous :
   forallb (gate_okb Z) ex_pass = true
-  /\ (exists C, cy_interp_all ex_pass = Some C)
+  /\ (match cy_interp_all ex_pass with Some _ => true | None => false end) = true
   /\ option_map show_gates
        (match merge_core Z Z.add (zeqmod eq_modulus_units eq_modulus_long_units) gtables ex_pass with Ok l => Some l | Err _ => None end)
-     = Some "RZ(1;N;8;T) H(0;N;_;F) CNOT(2;0;_;F) RX(3;N;16;F) H(4;N;_;F) H(4;N;_;F)"
+     = Some "RZ(1;N;8;T) H(0;N;_;F) CNOT(2;0;_;F) RX(3;N;16;F) H(2;N;_;F) H(2;N;_;F)"
   /\ option_map show_gates
        (match redundant_core Z Z.opp (zeqmod eq_modulus_units eq_modulus_long_units) inv_S_units inv_T_units gtables ex_pass with Ok l => Some l | Err _ => None end)
      = Some "RZ(1;N;3;F) H(0;N;_;F) CNOT(2;0;_;F) RZ(1;N;5;T)"
-  /\ compare_circuits 5 ex_pass [G "RZ" [1%Z] None (PNum 8%Z) true; G "H" [0%Z] None PNone false; G "CNOT" [2%Z] (Some [0%Z]) PNone false] = "P".
-Proof. vm_compute. repeat split. eexists. reflexivity. Qed.
+  /\ compare_circuits 4 ex_pass [G "RZ" [1%Z] None (PNum 8%Z) true; G "H" [0%Z] None PNone false; G "CNOT" [2%Z] (Some [0%Z]) PNone false] = "P".
+Proof. vm_compute. repeat split. Qed.
